@@ -68,7 +68,7 @@ ASSUMPTIONS = ["x, p, lambda, alpha finite f64 unless a request says otherwise (
                "exact zeros are specified behaviour, not an error: logistic(x) is exactly 0 for x < -709.78 because exp(-x) OVERFLOWS to inf and "
                "1/(1+inf) = 0 (the true value is a positive subnormal), and a softmax entry more than 745.2 below the maximum is exactly 0 because "
                "its exponential UNDERFLOWS; the oracle demands exactly that "
-               (keys logistic:underflow-zero, softmax:underflow-zero) and values in [0,1] everywhere"]
+               "(keys logistic:underflow-zero, softmax:underflow-zero) and values in [0,1] everywhere"]
 
 EPS = 2.0 ** -52
 TINY = 2.0 ** -1074
@@ -873,7 +873,7 @@ srctie.wire(globals(), 'C17')
 
 # --- deep theorems (Rounding3)
 PROOF_MODULES = PROOF_MODULES + ['Compute.Lemmas.LogRounding', 'Compute.Props.Rounding3']
-REQUIRED_THEOREMS = REQUIRED_THEOREMS + ['Cv.Rounding3.softmax_sum_error', 'Cv.Rounding3.softmax_entry_near', 'Cv.Rounding3.logistic_error', 'Cv.Rounding3.logistic_range', 'Cv.Rounding3.stdmodel_softmax_note', 'Cv.Rounding3.stdmodel_logistic_note']
+REQUIRED_THEOREMS = REQUIRED_THEOREMS + ['Cv.Rounding3.softmax_sum_error_stdmodel', 'Cv.Rounding3.softmax_entry_near', 'Cv.Rounding3.logistic_error', 'Cv.Rounding3.logistic_range_stdmodel', 'Cv.Rounding3.stdmodel_softmax_note', 'Cv.Rounding3.stdmodel_logistic_note']
 NOT_PROVED = [x for x in NOT_PROVED if not any(k in str(x) for k in ('floating-point rounding of the transforms',))]
 NOT_PROVED = NOT_PROVED + ['rounding of logit and Box-Cox (oracle only); for softmax and logistic the float-level claims ARE proved in the standard model with libm exp/ln of relative error <= u_f (Props/Rounding3): every computed softmax entry > 0 and |sum - 1| <= gamma_(n+1), entries within an explicit factor of the exact ones, logistic in (0,1] with relative error <= gamma_2 + gamma^f_1']
 
@@ -909,6 +909,10 @@ REQUIRED_THEOREMS = REQUIRED_THEOREMS + [t for t in [
     "Cv.C17.binom_underflow", "Cv.C17.logit_defined_iff", "Cv.C17.logistic_mono", "Cv.C17.softmax_order_strict", "Cv.C17.softmax_length",
     "Cv.C17.boxcox_rejects", "Cv.C17.boxcoxShifted_formula", "Cv.C17.boxcoxShifted_zero", "Cv.C17.boxcoxBody_tendsto_zero",
     "Cv.C17.logGammaAcc_of_rel", "Cv.C17.altValue_bounds"] if t not in REQUIRED_THEOREMS]
+# the owner of Lemmas/LogRounding renamed two required theorems (review2-b); map the old names wherever an earlier block still lists them
+_RENAMED = {"Cv.Rounding3.softmax_sum_error_stdmodel": "Cv.Rounding3.softmax_sum_error_stdmodel",
+            "Cv.Rounding3.logistic_range_stdmodel": "Cv.Rounding3.logistic_range_stdmodel"}
+REQUIRED_THEOREMS = list(dict.fromkeys(_RENAMED.get(t, t) for t in REQUIRED_THEOREMS))
 NOT_PROVED = [
     "accuracy of libm exp/ln/pow (a hypothesis u_f of every float-level theorem; measured by the mpmath oracle)",
     "logistic o logit = id is proved on the open interval (0,1) only; at p = 0 and p = 1 the real-number model carries the junk values of the "
@@ -924,7 +928,7 @@ NOT_PROVED = [
     "the absolute error of ln_gamma (about u n ln n) exceeds 1 and the result is meaningless (oracle bound vacuous there, tie only)",
     "softmax theorems over the reals take the fold seed as any lower bound of the entries (the reals have no -infinity)",
     "float-level theorems exist in two idealised models, both owned by Props/Rounding3 + Lemmas/LogRounding: (1) the standard model "
-    "(stdmodel_*, logistic_range, softmax_sum_error; every operation and exp/ln/pow with relative error only, NO underflow and NO overflow): "
+    "(stdmodel_*, logistic_range_stdmodel, softmax_sum_error_stdmodel; every operation and exp/ln/pow with relative error only, NO underflow and NO overflow): "
     "softmax entries > 0 and |sum - 1| <= gamma_(n+1) for lengths <= 1000 (gamma_1001), entries within an explicit factor of the exact ones, "
     "logistic in (0,1] with relative error <= gamma_2 + gamma^f_1, logit and Box-Cox error bounds (Props/Rounding5); it describes binary64 only "
     "while nothing under- or overflows, for exp: arguments in [-708.39, 709.78]; (2) the underflow-aware model ExpLnUfl (exp x = e^x (1+d) + eta; "
